@@ -75,13 +75,25 @@ impl RegexMatcherBuilder {
         // then run the original regex on only that line. (In this case, the
         // regex engine is likely to handle this case for us since it's so
         // simple, but the idea applies.)
-        let fast_line_regex = InnerLiterals::new(&chir, &regex).one_regex()?;
+        let inner_literals = InnerLiterals::new(&chir, &regex);
+        let fast_line_regex = inner_literals.one_regex()?;
 
         // We override the line terminator in case the configured HIR doesn't
         // support it.
         let mut config = self.config.clone();
         config.line_terminator = chir.line_terminator();
-        Ok(RegexMatcher { config, regex, fast_line_regex, non_matching_bytes })
+        Ok(RegexMatcher {
+            config,
+            regex,
+            #[cfg(feature = "verif-hooks")]
+            verif_inner_literals: fast_line_regex
+                .as_ref()
+                .and_then(|_| inner_literals.verif_literals()),
+            fast_line_regex,
+            non_matching_bytes,
+            #[cfg(feature = "verif-hooks")]
+            verif_final_hir: chir.hir().clone(),
+        })
     }
 
     /// Build a new matcher from a plain alternation of literals.
@@ -377,9 +389,30 @@ pub struct RegexMatcher {
     fast_line_regex: Option<Regex>,
     /// A set of bytes that will never appear in a match.
     non_matching_bytes: ByteSet,
+    /// Verification hook: the HIR that `regex` was compiled from.
+    #[cfg(feature = "verif-hooks")]
+    verif_final_hir: regex_syntax::hir::Hir,
+    /// Verification hook: the literals `fast_line_regex` was built from.
+    #[cfg(feature = "verif-hooks")]
+    verif_inner_literals: Option<Vec<Vec<u8>>>,
 }
 
 impl RegexMatcher {
+    /// Verification hook: the final HIR (after smart case, terminator
+    /// stripping, word and whole-line wrapping) that this matcher's regex was
+    /// compiled from.
+    #[cfg(feature = "verif-hooks")]
+    pub fn verif_final_hir(&self) -> &regex_syntax::hir::Hir {
+        &self.verif_final_hir
+    }
+
+    /// Verification hook: the inner literals from which the fast candidate
+    /// line regex was built, or `None` if there is no such regex.
+    #[cfg(feature = "verif-hooks")]
+    pub fn verif_inner_literals(&self) -> Option<&[Vec<u8>]> {
+        self.verif_inner_literals.as_deref()
+    }
+
     /// Create a new matcher from the given pattern using the default
     /// configuration.
     pub fn new(pattern: &str) -> Result<RegexMatcher, Error> {
